@@ -75,37 +75,63 @@ void AppendDomain(util::Serializer &dump, const std::string domain)
 }
 
 /// 从缓冲中提取domain，与AppendDomain()相反
-std::string FetchDomain(util::Deserializer &parser)
+/**
+ * 压缩指针用循环跟随，不用递归，且跳转次数有上限：
+ * 每个指针占2字节，跳转超过 size/2 次必然重复经过同一个指针，即指针成环
+ *
+ * \param   parser  成功后停在域名之后
+ * \param   domain  提取到的域名
+ *
+ * \return  false   压缩指针成环
+ */
+bool FetchDomain(util::Deserializer &parser, std::string &domain)
 {
     std::ostringstream oss;
     bool first = true;
+
+    util::Deserializer reader(parser);  //!< 沿着压缩指针读取，parser 只越过域名本身
+    bool is_jumped = false;
+    size_t jump_times = 0;
+
     for (;;) {
         uint8_t len = 0;
-        parser >> len;
+        reader >> len;
         if (len == 0)
             break;
+
+        //! 处理压缩的字串
+        if ((len & 0xc0) == 0xc0) {
+            uint8_t offset_low = 0;
+            reader >> offset_low;
+            uint16_t offset = (len & 0x3f) << 8 | offset_low;
+
+            if (!is_jumped) {
+                parser.skip(reader.pos() - parser.pos());
+                is_jumped = true;
+            }
+
+            if (++jump_times > reader.size() / 2)
+                return false;
+
+            reader.set_pos(offset);
+            continue;
+        }
 
         if (!first)
             oss << '.';
         first = false;
 
-        //! 处理压缩的字串
-        if ((len & 0xc0) == 0xc0) {
-            uint8_t offset_low = 0;
-            parser >> offset_low;
-            uint16_t offset = (len & 0x3f) << 8 | offset_low;
-            util::Deserializer sub_parser(parser);
-            sub_parser.set_pos(offset);
-            oss << FetchDomain(sub_parser);
-            break;
-        } else {
-            char str[len + 1];
-            parser.fetch(str, len);
-            str[len] = '\0';
-            oss << str;
-        }
+        char str[len + 1];
+        reader.fetch(str, len);
+        str[len] = '\0';
+        oss << str;
     }
-    return oss.str();
+
+    if (!is_jumped)
+        parser.skip(reader.pos() - parser.pos());
+
+    domain = oss.str();
+    return true;
 }
 
 }
@@ -240,13 +266,21 @@ void DnsRequest::onUdpRecv(const void *data_ptr, size_t data_size, const SockAdd
 
         //! 解析Question字段
         for (uint16_t i = 0; i < qd_count; ++i) {
-            FetchDomain(parser);
+            std::string domain;
+            if (!FetchDomain(parser, domain)) {
+                LogNotice("dns reply with bad domain name");
+                return;
+            }
             uint16_t dns_type, dns_class;
             parser >> dns_type >> dns_class;
         }
 
         for (uint16_t i = 0; i < an_count; ++i) {
-            FetchDomain(parser);
+            std::string an_domain;
+            if (!FetchDomain(parser, an_domain)) {
+                LogNotice("dns reply with bad domain name");
+                return;
+            }
             uint16_t an_type, an_class, an_len;
             uint32_t an_ttl;
             parser >> an_type >> an_class >> an_ttl >> an_len;
@@ -263,7 +297,11 @@ void DnsRequest::onUdpRecv(const void *data_ptr, size_t data_size, const SockAdd
                 result.a_vec.push_back(a);
 
             } else if (an_type == DNS_TYPE_CNAME) {
-                std::string domain = FetchDomain(parser);
+                std::string domain;
+                if (!FetchDomain(parser, domain)) {
+                    LogNotice("dns reply with bad domain name");
+                    return;
+                }
                 CNAME cname = { an_ttl, DomainName(domain) };
                 result.cname_vec.push_back(cname);
 
